@@ -243,11 +243,29 @@ func (p *parser) expr() Node {
 
 // sortName parses a sort: Ident or Ident<sort,...> e.g. Array<int,bool>
 func (p *parser) sortName() string {
+	if p.accept("*") {
+		return "*" + p.sortName()
+	}
+	if p.isOp("[") {
+		p.next()
+		p.expect("]")
+		return "[]" + p.sortName()
+	}
 	t := p.next()
 	if t.k != tIdent {
 		p.fail("sort expected, got %q", t.s)
 	}
 	s := t.s
+	if p.isOp(".") && p.toks[p.p+1].k == tIdent {
+		p.next()
+		s += "." + p.next().s
+	}
+	if s == "map" && p.isOp("[") {
+		p.next()
+		k := p.sortName()
+		p.expect("]")
+		return "map[" + k + "]" + p.sortName()
+	}
 	if p.accept("<") {
 		var args []string
 		for {
@@ -448,6 +466,7 @@ type Clause struct {
 	E    Node
 	Name string // optional label
 	Line int
+	Used bool
 }
 
 type LoopSpec struct {
@@ -483,8 +502,16 @@ type Contract struct {
 	Assumed   bool // library contract (trusted)
 	Line      int
 	File      string
-	NoInline  bool
+	NoInline bool
+	Entry    bool
+	NoFrame  bool
+	LoopInvs []*Clause // invariants of every loop of the function
 	Opaque    bool // havoc everything reachable (external default)
+}
+
+type TrustedOb struct {
+	Glob   string
+	Reason string
 }
 
 type SpecFunc struct {
@@ -502,6 +529,9 @@ type Axiom struct {
 }
 
 type SpecFile struct {
+	GlobalInv []*Clause
+	Trusted   []TrustedOb
+	Preds     []*SpecFunc
 	Smt       []string
 	Sorts     []string
 	Funcs     []*SpecFunc
@@ -583,6 +613,47 @@ func parseSpecFile(src, prefix, file string, assumed bool) (*SpecFile, error) {
 			}
 			sf.Funcs = append(sf.Funcs, f)
 			cur = nil
+		case "pred":
+			// pred name(params) = expr   (macro, expanded at use; may read the heap)
+			eq := strings.Index(rest, "=")
+			for eq >= 0 && eq+1 < len(rest) && (rest[eq+1] == '=' || (eq > 0 && strings.ContainsRune("=!<>", rune(rest[eq-1])))) {
+				n := strings.Index(rest[eq+2:], "=")
+				if n < 0 {
+					eq = -1
+					break
+				}
+				eq += 2 + n
+			}
+			if eq < 0 {
+				return nil, fail(fmt.Errorf("pred needs = body"))
+			}
+			pf, err := parseSpecFunc(rest[:eq] + " bool")
+			if err != nil {
+				return nil, fail(err)
+			}
+			body, err := parseExpr(rest[eq+1:])
+			if err != nil {
+				return nil, fail(err)
+			}
+			pf.Body = body
+			pf.Src = rest[eq+1:]
+			sf.Preds = append(sf.Preds, pf)
+			cur = nil
+		case "globalinv":
+			e, err := parseExpr(rest)
+			if err != nil {
+				return nil, fail(err)
+			}
+			sf.GlobalInv = append(sf.GlobalInv, &Clause{Kind: "globalinv", Tags: tags, Src: rest, E: e, Line: ll.L})
+			cur = nil
+		case "trusted":
+			f := strings.SplitN(rest, " ", 2)
+			t := TrustedOb{Glob: f[0]}
+			if len(f) > 1 {
+				t.Reason = strings.TrimSpace(f[1])
+			}
+			sf.Trusted = append(sf.Trusted, t)
+			cur = nil
 		case "axiom":
 			i := strings.Index(rest, ":")
 			if i < 0 {
@@ -611,6 +682,21 @@ func parseSpecFile(src, prefix, file string, assumed bool) (*SpecFile, error) {
 			}
 			sf.Contracts = append(sf.Contracts, c)
 			cur = c
+			curLoop = nil
+		case "loopinv":
+			if cur == nil {
+				return nil, fail(fmt.Errorf("loopinv outside contract"))
+			}
+			label := ""
+			if i := strings.Index(rest, ": "); i > 0 && isIdentLike(rest[:i]) {
+				label = rest[:i]
+				rest = strings.TrimSpace(rest[i+1:])
+			}
+			e, err := parseExpr(rest)
+			if err != nil {
+				return nil, fail(err)
+			}
+			cur.LoopInvs = append(cur.LoopInvs, &Clause{Kind: "invariant", Tags: tags, Src: rest, E: e, Name: label, Line: ll.L})
 			curLoop = nil
 		case "requires", "ensures", "invariant", "decreases":
 			if cur == nil {
@@ -682,6 +768,10 @@ func parseSpecFile(src, prefix, file string, assumed bool) (*SpecFile, error) {
 			cur.Fresh = append(cur.Fresh, strings.Fields(rest)...)
 		case "noinline":
 			cur.NoInline = true
+		case "entry":
+			cur.Entry = true
+		case "noframe":
+			cur.NoFrame = true
 		case "tags":
 			for _, t := range strings.Split(rest, ",") {
 				cur.Tags = append(cur.Tags, strings.TrimSpace(t))
